@@ -343,7 +343,11 @@ def scripts(tier, seed, scale=1):
                                 lines += ["enc nullwin term", "enc nullwin 61"]
                         elif via == "enc" and nfin:
                             lines += ["enc nullwin 61", "enc nullwin term"]
-                        lines += ["%s del %d" % (pre, k), "%s push 64" % pre, pre + " term", pre + " check",
+                        lines += ["%s del %d" % (pre, k)]
+                        if part and nfin and k == 1:
+                            # a second deletion right behind the abort: no message is in progress any more
+                            lines += ["%s del 1" % pre]
+                        lines += ["%s push 64" % pre, pre + " term", pre + " check",
                                   "%s del 1" % pre, pre + " term", pre + " check"]
                         out.append(("del:%s:%d:%d:%d:%s" % (codec, pi, nfin, k, via), lines))
     # ---- stream 3: random structured, incl. rejected command text, plus the Python encoder
@@ -554,6 +558,8 @@ def nontrivial(script, c_lines):
             maxlen = 0xdf if "zpe" in codec else 0xff
             while codec != "command" and i < len(bs) - 1:
                 c = bs[i]
+                if c == 0:
+                    break               # not a frame body (the code under test produced a delimiter inside): nothing to classify
                 if c == maxlen or ("zpe" in codec and c > maxlen):
                     special = True
                 n = (c - 1) if c <= maxlen else c - 0xe0
